@@ -298,13 +298,30 @@ def analyse(obs: Obs, prog):
     obs.add({"C05", "C13", "C01"}, "SCORE-AGG", "Switch.edit/score", oks and f.get("retval") == dcall("tree_primal", q[2]), derived=show(f.get("retval"))[:200], expected="score / retdiff chosen by the new index; retval = primal(retdiff)", where=w)
     okst = is_t(f.get("subtraces"), "fam") and all(is_t(x, "mselem") and is_t(x[2], "proj") and x[2][2] == 0 or (is_t(x, "mselem")) for x in ([f.get("subtraces")[2]] if not is_t(f.get("subtraces")[2], "phi") else [f.get("subtraces")[2][2], f.get("subtraces")[2][3]])) if is_t(f.get("subtraces"), "fam") else False
     obs.add({"C05", "C13", "C01"}, "TRACE-INNER", "Switch.edit/subtraces", okst, derived=show(f.get("subtraces"))[:200], expected="[t[0] for t in rets]: the per-branch result traces", where=w)
-    # backward request must be selected by the executed branch
+    # backward request: choices of the branch selected by the OLD index - the executed branch's own discard when the index (by value) did not change, ALL the
+    # choices of the branch that was left when it did (going back re-creates that branch and constrains every choice); never a fixed branch's request
     bwd = q[3]
     const_sub = [x for x in subterms(bwd) if is_t(x, "proj") and (is_t(x[1], "mswitch") or is_t(x[1], "fam"))]
-    selected = is_t(bwd, "choose") or mentions_any(bwd, lambda x: is_t(x, "choose"))
-    cs = f"rets[{const_sub[0][2]}][3]" if const_sub else show(bwd)[:60]
-    obs.add({"C06", "C13"}, "BWD-SELECT", "Switch.edit", selected and not const_sub, construct=cs,
-            derived=f"backward request = {show(bwd)[:200]}: a constant subscript into the branch family (always branch 0's request / placeholder)", expected="the backward request of the executed branch (chosen by the new index)", where=w)
+    old_idx = call0(P("trace"), "get_idx")
+    okb_, derb_ = False, show(bwd)[:200]
+    if is_t(bwd, "ctor") and bwd[1] == "Update" and len(bwd[2]) == 1 and is_call(bwd[2][0], "switch") and len(bwd[2][0][2]) == 2 and bwd[2][0][2][0] == old_idx:
+        lst_ = bwd[2][0][2][1]
+        apps = [e_ for e_ in r.env.get("__effects__", []) if is_mcall(e_, "append") and e_[1][1] == lst_ and len(e_[2]) == 1]
+        if len(apps) == 1 and is_t(apps[0][2][0], "bin") and apps[0][2][0][1] == "|":
+            A_, B_ = apps[0][2][0][2], apps[0][2][0][3]
+            derb_ = f"per branch: {show(apps[0][2][0])[:260]}"
+            _mask_call = lambda t: is_t(t, "call") and (is_mcall(t, "mask") or (is_t(t[1], "phi") and all(is_t(x, "attr") and x[2] == "mask" for x in (t[1][2], t[1][3]))))
+            if _mask_call(A_) and is_mcall(B_, "mask") and len(A_[2]) == 1 and len(B_[2]) == 1:
+                fa, fb = A_[2][0], B_[2][0]
+                same_val = lambda t: is_t(t, "cmp") and t[1] == "==" and old_idx in (t[2], t[3]) and any(normalised(x, RAWN) for x in (t[2], t[3]))
+                flag_ok = (is_t(fa, "phi") and fa[1] == mk_cmp("==", tang, NOC) and fa[2] == C(True) and same_val(fa[3])) or same_val(fa)
+                neg_ok = is_call(fb, "not_") and fb[2] == (fa,) or fb == ("un", "not", fa) or fb == ("un", "~", fa)
+                own_discard = mentions_any(A_[1], lambda x: is_t(x, "attr") and x[2] == "constraint" and mentions_any(x[1], lambda y: is_t(y, "proj") and y[2] == 3))
+                old_choices = B_[1][1] == choices_of(("elem", tsub))
+                okb_ = bool(flag_ok and neg_ok and own_discard and old_choices)
+    cs = f"rets[{const_sub[0][2]}][3]" if const_sub and not okb_ else "backward request of Switch.edit"
+    obs.add({"C06", "C13"}, "BWD-SELECT", "Switch.edit", okb_, construct=cs, derived=derb_,
+            expected="Update(ChoiceMap.switch(trace.get_idx(), [bwd_i.constraint.mask(same) | old_subtrace_i.get_choices().mask(not same)])) with same = (clamp(new idx) == trace.get_idx())", where=w)
     asr = [t for c, t in r.asserts]
     obs.add({"C06"}, "REQ-ACCEPT", "Switch.edit", any(is_t(t, "isinst") and t[1] == P("edit_request") and t[2] == "Update" for t in asr), derived=[show(t) for t in asr], expected="assert isinstance(edit_request, Update)", where=w)
     obs.add({"C08", "C13"}, "TAG-BRANCH-INVENTORY", "Switch.edit/index-tag", mentions(r.ret, mk_cmp("==", tang, NOC)) and mentions(r.ret, mk_cmp("==", tang, UNK)), derived="branches on the index tangent", expected="documented resampling trigger: NoChange keeps branches, UnknownChange resimulates", where=w)
